@@ -536,6 +536,62 @@ func longLivedVerifier(r *lib.Run, root *lib.Ent, desc ocispec.Descriptor, paylo
 			r.Inconclusive(fmt.Sprintf("long-lived verifier scenario: cannot sign: %v %v", err1, err2))
 			return
 		}
+		// (a) the TSA is revoked BETWEEN two verifications on one verifier: "issued by an unrevoked TSA" is judged each time
+		{
+			tsaRoot := lib.Mint(nil, lib.CertSpec{CN: "c06-ll-tsa-root", Kind: "ca", KeyIdx: 6})
+			tsaLeaf := lib.Mint(tsaRoot, lib.CertSpec{CN: "c06-ll-tsa", Kind: "tsa", KeyIdx: 2})
+			raw := lib.MustCoreSign(lib.SignSpec{Format: format, Payload: payload, Signer: okLeaf, SigningTime: now.Add(-time.Minute)})
+			sigVal, alg := lib.SigValue(format, raw)
+			stamped := lib.AttachToken(format, raw, (&lib.TSA{Key: tsaLeaf.Key, Chain: tsaLeaf.Chain()}).Token(lib.TokenSpec{Message: sigVal, Hash: alg.Hash(), GenTime: now.Add(-30 * time.Second), AccuracyS: 1}))
+			trv := &tsRev{status: "ok"}
+			sv := lib.LevelMap{Auth: "log", TS: "log", Exp: "log", Rev: "log"}.SV(0)
+			sv.VerifyTimestamp = trustpolicy.OptionAlways
+			tv, err := verifier.NewVerifierWithOptions(lib.NewMemTS().Put("ca:x", root.Cert).Put("tsa:t", tsaRoot.Cert), verifier.VerifierOptions{OCITrustPolicy: lib.OCIPolicy(sv, []string{"ca:x", "tsa:t"}, []string{"*"}), RevocationCodeSigningValidator: lib.OKRev{}, RevocationTimestampingValidator: trv})
+			if err != nil {
+				panic(err)
+			}
+			tsPassed := func() (bool, bool) {
+				out, _ := tv.Verify(ctx, desc, stamped, opts)
+				if out == nil {
+					return false, false
+				}
+				for _, res := range out.VerificationResults {
+					if res.Type == trustpolicy.TypeAuthenticTimestamp {
+						return res.Error == nil, true
+					}
+				}
+				return false, false
+			}
+			if p1, ok1 := tsPassed(); ok1 && p1 {
+				trv.status = "revoked"
+				p2, ok2 := tsPassed()
+				r.Eval("long-lived|" + format + "|tsa-revoked-between-two-verifications")
+				r.Event("tsa-revoked-between-two-verifications")
+				if ok2 && p2 {
+					r.Violation(map[string]string{"kind": "revoked-tsa-accepted", "verifier": "long-lived"}, format+": one verifier verified a countersigned signature twice; before the second time the TSA was revoked, and authenticTimestamp still passed", nil)
+				}
+			} else {
+				r.Event("completeness:good-countersignature-rejected-on-a-long-lived-verifier")
+			}
+		}
+		// (b) a signing certificate that becomes valid two minutes from now is not valid at the moment of verification (no grace)
+		{
+			soonLeaf := lib.Mint(iss, lib.CertSpec{CN: "c06-ll-soon", Kind: "codesign", KeyIdx: 3, NotBefore: time.Now().Add(2 * time.Minute).Truncate(time.Second), NotAfter: now.Add(240 * time.Hour)})
+			soon := lib.HandSign(lib.HandSpec{Format: format, Scheme: "notary.x509", Payload: payload, Signer: soonLeaf, SigningTime: time.Now()})
+			if _, err := lib.RefVerify(format, soon); err == nil {
+				out, _ := mk().Verify(ctx, desc, soon, opts)
+				stillNotValid := time.Now().Before(soonLeaf.Cert.NotBefore) // (judged only if the certificate was still not valid when Verify returned)
+				r.Eval("not-yet-valid-by-two-minutes|" + format)
+				if out != nil && stillNotValid {
+					r.Event("certificates-valid-from-two-minutes-ahead")
+					for _, res := range out.VerificationResults {
+						if res.Type == trustpolicy.TypeAuthenticTimestamp && res.Error == nil {
+							r.Violation(map[string]string{"kind": "timestamp-pass-against-clock", "chain": "leaf-valid-from-two-minutes-ahead", "scheme": "notary.x509", "token": "absent", "vt": "", "tsa_store": "false"}, format+": authenticTimestamp passed for a signing certificate whose validity starts two minutes after the moment of verification", nil)
+						}
+					}
+				}
+			}
+		}
 		deadline := shortLeaf.Cert.NotAfter
 		if expiry.After(deadline) {
 			deadline = expiry
